@@ -17,12 +17,15 @@
      arma2psd_nonneg         ordered *-field, rho > 0, T > 0: every bin with A(w^k) <> 0 is >= 0
      pipeline_is_scaling     for EVERY pipeline table: stored PSD = (one scalar coefficient) * (sampling-free layout)
      range_axis_scales       for EVERY Range generator: frequencies(c*sampling) = c * frequencies(sampling)
+     fresult_arma2psd        link of the two halves: for a table row with (UseDiv, SampSelf, FsNone) -- the generated theorem
+                             model_classes_arma2psd shows these are exactly the rows of the AR/MA/ARMA classes -- the
+                             interpreter's functional result built from arma2psd(T=1) IS arma2psd(T=sampling)
    PROVED over the GENERATED table (tools/props/_pipelines.py, recompiled from the snapshot on every run by
    tools/props/C08.py through ctx.check_generated; listed in the evidence under the same names):
-     table_complete, state_consistent, stored_length_complex,
+     table_complete, state_consistent, stored_length_complex, model_classes_arma2psd,
      scale_once            for every class and datatype: psd(scale_by_freq=True) = (2 pi / df) * psd(False), df = sampling/NFFT
      sampling_value_model  pburg pyule pcovar pmodcovar parma pma: psd(k*sampling) = psd(sampling) / k
-     sampling_value_fixed  Periodogram pcorrelogram MultiTapering pmusic pev: unchanged
+     sampling_value_fixed  Periodogram pcorrelogram MultiTapering pmusic pev pdaniell: unchanged
      sampling_value_minvar pminvar: psd(k*sampling) = k * psd(sampling)   (what the code does; outside both groups, see C16)
      sampling_axis         frequencies() = bins * sampling/NFFT for the three sides, df = sampling/NFFT, also after p.sampling = v
      sampling_axis_scales  proportionality of the axis, lengths unchanged
@@ -31,7 +34,7 @@
    check + correspondence of the generated model against real objects + ratio search); rounding. *)
 Require Import Spectrum.Theory.Ops Spectrum.Theory.Sum Spectrum.Theory.Vec Spectrum.Theory.Dft Spectrum.Theory.Order
                Spectrum.Model.Arma2psd Spectrum.Proofs.Arma2psdTheory
-               Spectrum.Model.PipelineLib Spectrum.Proofs.PipelineTheory
+               Spectrum.Model.PipelineLib Spectrum.Proofs.PipelineTheory Spectrum.Proofs.C08Link
                Spectrum.Instances.QcC Spectrum.Instances.QcCTw.
 From Coq Require Import QArith Qcanon.
 
@@ -102,6 +105,13 @@ Proof. exact (stored_coef twopi m p real sbf s Sp). Qed.
 Theorem range_axis_scales (g : rgen) (c samp : F) (N : nat) :
   run_gen g (c * samp) N = vscale c (run_gen g samp N).
 Proof. exact (run_gen_scale g c samp N). Qed.
+
+Theorem fresult_arma2psd (twopi : F) (tw : Z -> F) (p : pipeline) (sbf : bool) A B rho samp n S1 :
+  p_fsamp p = UseDiv -> p_samp p = SampSelf -> p_fscale p = FsNone ->
+  isreal samp -> samp <> 0 ->
+  arma2psd tw A B rho 1 n SidesDefault false = Some S1 ->
+  arma2psd tw A B rho samp n SidesDefault false = Some (fresult twopi p sbf samp n S1).
+Proof. exact (fresult_arma2psd_thm twopi tw p sbf A B rho samp n S1). Qed.
 End C08.
 
 (* non-vacuity on the exact 4-point grid (tw4 = 1, -i, -1, i): a complex ARMA(2,1) model *)
@@ -131,3 +141,4 @@ Print Assumptions vmax_upper_bound.
 Print Assumptions arma2psd_nonneg.
 Print Assumptions pipeline_is_scaling.
 Print Assumptions range_axis_scales.
+Print Assumptions fresult_arma2psd.
